@@ -33,6 +33,7 @@ struct ApiOpts {
 	bool segments = false;           // FO4/FO76: random segmentation
 	bool partitions = false;         // LE/SSE/FO3: random partition assignment
 	bool usedObject = false;         // the NifFile object has held another file before Create() (see useObject)
+	bool junkWeights = false;        // SetShapeBoneWeights also receives entries that are no weights (NaN, negative, zero, below the 1e-4 cut): the setter has to drop them
 	bool tangents = false;           // CalcTangentsForShape on every shape that has normals and UVs (OB: creates the tangent-space extra data on save)
 	bool texturing = false;          // OB/FO3: shapes also get a NiTexturingProperty with source textures in a random subset of the ten slots
 	bool modelSpace = false;         // SK/SSE: shaders use model-space normals (cloning / conversion drop normals and tangents then)
@@ -73,6 +74,11 @@ int permutePartitionVertexMaps(NifFile& nif, Rng& rng);
 // triangle, written in one of three ways: a b c | a a c b (a leading degenerate: the real triangle sits at an odd strip position) | a b c c.
 // Returns the new shape (nullptr when `shape` is not a NiTriShape with data).
 NiShape* toStripsSameTriangles(NifFile& nif, NiShape* shape, Rng& rng);
+
+// Skyrim SE partitions store their triangles twice (a face list that may be absent, and the "triangles copy"): clears the optional face list
+// of every SSE partition (Has Faces = 0), as files written by other tools have it.  Returns the number of partitions changed; the model has to
+// be saved and loaded again to obtain the state a reader of such a file is in.
+int dropPartitionFaces(NifFile& nif);
 
 // attaches a NiTexturingProperty whose slots (a seeded subset of the ten, never empty) name fresh NiSourceTexture blocks; OB / FO3 models
 void addTexturingProperty(NifFile& nif, NiShape* shape, Rng& rng, const std::vector<std::string>& paths);
